@@ -301,6 +301,13 @@ class Seq(object):
         if self.stopped and len(f.queue) > 0 and id(c) not in self.closed_by_harness:
           self.viol('stop/closed-with-queue', 'destination %s closed by an orderly stop while %d datapoints were still queued' % (
             self._fname(f.destination), len(f.queue)))
+        t = c.transport
+        if self.stopped and id(c) not in self.closed_by_harness and t.close_requested_at is not None and len(t.value()) > t.close_requested_at:
+          # "closes a connected destination only after its queue has been transmitted": nothing may still be on its way
+          # to the transport when the close is requested
+          self.viol('stop/closed-before-transmitted', 'destination %s: the orderly stop asked the transport to close after %d bytes, '
+                    '%d more bytes were written afterwards' % (self._fname(f.destination), t.close_requested_at, len(t.value()) - t.close_requested_at))
+        self.counters['closes_by_carbon_observed'] = self.counters.get('closes_by_carbon_observed', 0) + 1
         c.h_connection_lost(Failure(error.ConnectionDone()))
     self.check_invariants()
     if self.state.metricReceiversPaused:
